@@ -9,7 +9,7 @@
 From Coq Require Import String ZArith NArith List Bool Reals PrimFloat.
 Require Import PV.Base.Val PV.Model.Rdd PV.Model.RddLib.
 Require Import PV.Base.Num PV.Base.NumR.
-Require Import PV.Proofs.Rdd PV.Proofs.RddTr PV.Proofs.RddCount PV.Proofs.RddAct PV.Proofs.RddFold PV.Proofs.RddLib PV.Proofs.RddMean.
+Require Import PV.Proofs.Rdd PV.Proofs.RddTr PV.Proofs.RddCount PV.Proofs.RddAct PV.Proofs.RddFold PV.Proofs.RddLib PV.Proofs.RddMean PV.Proofs.RddObserve.
 Import ListNotations.
 Open Scope Z_scope.
 
@@ -81,6 +81,13 @@ Corollary C01_slices_irrelevant : forall (ts : list tr) (a : act) (xs : list val
   Forall tr_ok ts -> (forall ys, apply_lists ts xs = Ok ys -> act_ok a ys) ->
   pipeline_rdd ts a xs n = pipeline_rdd ts a xs m.
 Proof. exact slices_irrelevant. Qed.
+
+(* ---- the observation the correspondence run compares with the implementation (Run/C01_run.v: glom after
+   every stage, then the action) starts with the partitions of parallelize and ends with the pipeline result *)
+Theorem C01_observe_pipeline : forall (ts : list tr) (a : act) (xs : list val) (n : Z),
+  last (observe ts a (parallelize xs n)) VNone = res_val (pipeline_rdd ts a xs n) /\
+  hd VNone (observe ts a (parallelize xs n)) = vparts (parallelize xs n).
+Proof. exact observe_pipeline. Qed.
 
 (* ---- mean().  The full statement (bit-identical floats) is false of the model and of the implementation:
    Welford's running mean and the merge formulas round differently from sum(xs) / len(xs). *)
